@@ -1,9 +1,9 @@
 #!/bin/bash
 # usage: confirm_seed.sh <Cxx> <k> ; confirms a seeded change in a scratch worktree and stores it under /verif/seeded/
-P=$1; K=$2
-SRC=/tmp/seed_$P/out
-DST=/verif/seeded/${P}_$K
-WT=/tmp/conf_${P}_$K
+P=$1; K=$2; ROUND=${3:-1}
+if [ "$ROUND" = "2" ]; then SRC=/tmp/seed2_$P/out; IDX=$((K+2)); else SRC=/tmp/seed_$P/out; IDX=$K; fi
+DST=/verif/seeded/${P}_$IDX
+WT=/tmp/conf_${P}_$IDX
 [ -f $SRC/patch$K.diff ] || { echo "$P $K: no patch"; exit 0; }
 mkdir -p $DST
 cp $SRC/patch$K.diff $DST/patch.diff; cp $SRC/demo$K.py $DST/demo.py; cp $SRC/meta$K.json $DST/agent_meta.json 2>/dev/null
@@ -23,6 +23,6 @@ except Exception: am={}
 ok = ($R0==0 and $R1!=0 and $RT==0 and $AP==0)
 json.dump({"property":"$P","summary":am.get("summary"),"needs":am.get("needs"),
  "ran":{"demo_on_pristine_exit":$R0,"patch_applies":$AP==0,"demo_with_patch_exit":$R1,"suite_with_patch_exit":$RT,"suite_tail":"""$TS"""},
- "confirmed":ok,"origin":"independent sub-agent given only the property text and a scratch worktree"},open("$DST/meta.json","w"),indent=1)
-print("$P $K confirmed" if ok else "$P $K NOT CONFIRMED r0=$R0 r1=$R1 rt=$RT ap=$AP")
+ "confirmed":ok,"origin":"independent sub-agent given only the property text and a scratch worktree (round $ROUND)"},open("$DST/meta.json","w"),indent=1)
+print("$P $IDX confirmed" if ok else "$P $IDX NOT CONFIRMED r0=$R0 r1=$R1 rt=$RT ap=$AP")
 PY
